@@ -714,6 +714,12 @@ func parseClause(word, rest string) (*Clause, error) {
 			}
 			cl.Expr = e
 		}
+		// "f as pred": the callback's result as a function of its arguments
+		// becomes available to the ensures clauses under the name pred
+		if idx := strings.Index(name, " as "); idx >= 0 {
+			cl.Handle = strings.TrimSpace(name[idx+4:])
+			name = strings.TrimSpace(name[:idx])
+		}
 		cl.Names = []string{name}
 	case "props", "results", "use", "nullable", "permutes", "touches":
 		cl.Kind = word
